@@ -1,7 +1,59 @@
 (* C05 — functions: arguments, return values, early return and scoped isolation.
-   Property theorems only; every proof is [exact <lemma>]. *)
-Require Import DS.Base DS.FlowTables DS.FlowTablesWf.
+   Property theorems only; every proof is [exact <lemma>].
 
-(* the keyword tables regenerated from the Rust sources are well-formed (shared with C04) *)
-Theorem C05_tables : tables_wf = true.
-Proof. exact gen_tables_wf. Qed.
+   Model: DS.FlowFn (flat machine: Flow.v + function/mod.rs + utils/scope.rs), tables
+   DSG.GenFlowNames / DSG.GenFnNames regenerated from the Rust sources.
+   Spec: DS.FlowFnTree (programs with function definitions, [compile_prog], [prog_run]; a call runs
+   the body with fresh loop state and catches the return signal; <scope> functions run on a cleared
+   variable map and give back the caller's map plus the output variable). *)
+Require Import DS.Base DS.FlowTables DS.FlowTablesWf DS.FlowScan DS.Flow DS.FlowFn DS.FlowFnTree DS.FlowFnDom
+  DS.FlowFnScan DS.FlowFnSim DS.FlowFnThms.
+Open Scope nat_scope.
+
+(* the regenerated keyword tables are well-formed; the additional facts C05 uses (function table,
+   spellings of function / end_function / return, allow_recursive = false) hold by computation *)
+Theorem C05_tables : tables_wf = true /\ fn_tables_ok = true.
+Proof. exact (conj gen_tables_wf fn_tables_wf). Qed.
+
+(* the scan performed by `fn name` finds the function's own end over any well-nested body *)
+Theorem C05_fn_end : forall (callable : str -> Prop) pre b c rest,
+  pgb callable true b -> In c fn_closers ->
+  (if DSG.GenFlowNames.gen_function_allow_recursive
+   then find_commands gen_function_tables (pre ++ fcmds (gb b) ++ Some c :: rest) (length pre)
+   else find_commands_nr gen_function_tables (pre ++ fcmds (gb b) ++ Some c :: rest) (length pre))
+  = SOk [] (length pre + length (gb b)).
+Proof. exact find_fn_end. Qed.
+
+(* FULL STATEMENT (DESIGN §7 C05), not yet proved in this generality:
+     Theorem C05_sim : forall p, wf_prog p = true -> known_f6 p = false ->
+       forall n w w', prog_run n p w = FOk w' ->
+       exists fuel f' g', forall k, fuel <= k -> frun_program k (compile_prog p) w = FDone (w', f', g').
+   PROVED PART: the same conclusion for [ordered_prog p]: well-formed programs in which every
+   function only calls functions defined after it (so no call-graph cycle: no recursion) and no
+   return stands inside a for-in body.  MISSING: programs with call-graph cycles outside KnownF6
+   (recursion that does not pass through a for-in body) and calls in condition position (C05_cond);
+   both are covered by the correspondence run only. *)
+Theorem C05_sim_partial : forall p, tables_wf = true -> ordered_prog p = true ->
+  forall n w w', prog_run n p w = FOk w' ->
+  exists fuel f' g', (forall k, fuel <= k -> frun_program k (compile_prog p) w = FDone (w', f', g')) /\
+                     f_forstk f' = [] /\ fs_stk g' = [] /\ fs_scopes g' = [].
+Proof. exact fn_sim_ordered. Qed.
+
+(* F6: the for-in iteration state is keyed by line, not by activation.  Two well-formed KnownF6
+   programs on which the flat machine and the structured semantics differ: a loop left through
+   return resumes where it stopped on the next call (x = f; y = f; z = f gives a, b, c instead of
+   a, a, a) and a recursive re-entry steals the outer loop's entry (the run ends in the error
+   "end for/in ... not currently running part of a for/in invocation flow") *)
+Theorem C05_F6_refuted_return :
+  wf_prog f6_return = true /\ known_f6 f6_return = true /\
+  exists ws wf ff sf, prog_run 50 f6_return world0 = FOk ws /\
+                      frun_program 200 (compile_prog f6_return) world0 = FDone (wf, ff, sf) /\
+                      vget [117%N] ws = Some [97%N] /\ vget [118%N] ws = Some [97%N] /\ vget [119%N] ws = Some [97%N] /\
+                      vget [118%N] wf = Some [98%N] /\ vget [119%N] wf = Some [99%N].
+Proof. exact f6_refuted_return. Qed.
+Theorem C05_F6_refuted_recursion :
+  wf_prog f6_recursion = true /\ known_f6 f6_recursion = true /\
+  (exists ws, prog_run 50 f6_recursion (mkW [(s_c, [84%N])] [] [] 0%N) = FOk ws /\ length (w_trace ws) = 6) /\
+  (exists l s, frun_program 200 (compile_prog f6_recursion) (mkW [(s_c, [84%N])] [] [] 0%N)
+               = FStopped l (RError 5%N) s).
+Proof. exact f6_refuted_recursion. Qed.
